@@ -46,6 +46,12 @@ CLAIMS["C18"] = ("stateless model checking of the real code: fault-site enumerat
 CLAIMS["C02"] = ("stateless model checking of the real code: delay-bounded schedule enumeration of concurrent Future-API histories with a protocol monitor",
     "For 17 future-producing entry points (every executor layer, flat-mapped inner stage, f_nocancel, f_proxy, f_map, f_flat_map, f_timeout, f_zip, f_and, f_or, f_sequence, f_apply), three ways the underlying work ends (value, exception, cancel of the inner future) and four kinds of blocked caller (result, exception, wait, as_completed), a completer, 0-2 cancellers (two cancel() each), a racing add_done_callback and the waiter are interleaved to d<=1 (all) / d<=2 (core); monitor: outcome set once and never changes, cancel() returns bool / True is sticky / False after normal finish, every callback exactly once with done() true, every waiter released by every kind of completion, no method raises.",
     "DESIGN.md section 6 C02")
+CLAIMS["C13"] = ("explicit enumeration of the input space on the real code with a sequential reference model, plus delay-bounded schedule enumeration for completion/cancel races",
+    "All 704 combinations of {map, flat_map} x {executor form, f_* form} x input {value, exception} x {already done, completing later} x fn behaviour (absent, returns, raises, returns future ok/failed/cancelled/later, non-future) x error_fn behaviour (absent, returns, raises new, re-raises same, non-future) are executed and compared with a reference (outcome, call counts, arguments, exception identity, traceback kept); all chains of length 2-3 are compared with the composed function; completion racing a cancel of the output for both flat_map stages is explored to d<=2 (line granularity).",
+    "DESIGN.md section 6 C13")
+CLAIMS["C14"] = ("explicit-state enumeration of event histories on the real objects (environment choices are free) + delay-bounded schedule enumeration with a linearisation check",
+    "Every history over {input i finishes, cancel output, stop} for every outcome assignment (7 values of different types, exception, cancelled, never) with 1-3 inputs (4 in thorough), duplicates and f_nocancel-shielded inputs is executed; after every step the output is compared with the and/or fold reference, and at the end every input still pending at decision time must have received cancel(). Concurrent completions by separate threads (+ output canceller) are explored to d<=2 at line granularity of bool.py and checked for a linearisation consistent with real-time order.",
+    "DESIGN.md section 6 C14")
 NOT_YET = {}
 
 props = [json.loads(l) for l in open(os.path.join(HERE, "properties.jsonl"))]
